@@ -518,6 +518,17 @@ func probeAfterImport(ctx context.Context, r *standardrules.Service, f *jFile, p
 		get(id).srcs = append(get(id).srcs, v.Src)
 		get(id).tgts = append(get(id).tgts, v.Tgt)
 	}
+	// a listed number above MaxInt64 (the format's numbers are unsigned) still says "everything up to here
+	// was signed": after an import that reports success, MaxInt64 itself must be refused
+	parseCap := func(text string) (int64, error) {
+		if v, err := strconv.ParseInt(text, 10, 64); err == nil {
+			return v, nil
+		}
+		if _, err := strconv.ParseUint(text, 10, 64); err == nil {
+			return 1<<63 - 1, nil
+		}
+		return 0, fmt.Errorf("not a number")
+	}
 	for _, e := range f.Data {
 		if e.Null {
 			continue
@@ -530,7 +541,7 @@ func probeAfterImport(ctx context.Context, r *standardrules.Service, f *jFile, p
 		copy(k[:], raw)
 		id := kt.id(k)
 		for _, n := range e.Blocks {
-			if v, err := strconv.ParseInt(n.Text, 10, 64); err == nil && !n.Null {
+			if v, err := parseCap(n.Text); err == nil && !n.Null {
 				get(id).slots = append(get(id).slots, v)
 			}
 		}
@@ -538,10 +549,10 @@ func probeAfterImport(ctx context.Context, r *standardrules.Service, f *jFile, p
 			if a.Null {
 				continue
 			}
-			if v, err := strconv.ParseInt(a.Src, 10, 64); err == nil {
+			if v, err := parseCap(a.Src); err == nil {
 				get(id).srcs = append(get(id).srcs, v)
 			}
-			if v, err := strconv.ParseInt(a.Tgt, 10, 64); err == nil {
+			if v, err := parseCap(a.Tgt); err == nil {
 				get(id).tgts = append(get(id).tgts, v)
 			}
 		}
